@@ -22,7 +22,7 @@ C = lambda **kw: ('C', dict(kw))
 TYPES = [(N, 'number'), (S, 'string'), (B, 'boolean'), (D, 'date'), (A, 'Any'), (L(N), 'list<number>'), (L(S), 'list<string>'), (L(A), 'list<Any>'), (L(L(N)), 'list<list<number>>'),
          (C(a=N), 'context<a: number>'), (C(a=N, b=S), 'context<a: number, b: string>'), (C(a=A), 'context<a: Any>'), (C(b=S), 'context<b: string>'), (L(C(a=N)), 'list<context<a: number>>'),
          (('R', N), 'range<number>')]
-VALUES = [(N, '1'), (S, '"x"'), (B, 'true'), (D, 'date("2020-01-02")'), (NUL, 'null'), (L(N), '[1, 2]'), (L(NUL), '[]'), (L(A), '[1, "a"]'), (L(L(N)), '[[1], [2, 3]]'), (L(N), '[7]'), (L(S), '["s"]'),
+VALUES = [(N, '1'), (S, '"x"'), (B, 'true'), (D, 'date("2020-01-02")'), (NUL, 'null'), (L(N), '[1, 2]'), (L(NUL), '[]'), (L(A), '[1, "a"]'), (L(A), '[1, 2, "a"]'), (L(A), '[1, 2, "a", "b"]'), (L(A), '["a", 1, 2, 3]'), (L(N), '[1, 2, 3, 4, 5]'), (L(L(N)), '[[1], [2, 3]]'), (L(N), '[7]'), (L(S), '["s"]'),
           (L(L(N)), '[[5]]'), (C(a=N), '{a: 1}'), (C(a=N, b=S), '{a: 1, b: "x"}'), (C(b=S), '{b: "y"}'), (C(a=S), '{a: "z"}'), (L(C(a=N)), '[{a: 1}, {a: 2}]'), (L(C(a=N, b=S)), '[{a: 1, b: "q"}]'),
           (L(C(a=N)), '[{a: 3}]')]   # (a range value is left out: = on ranges is not defined, so the answer could not be compared)
 SINGLE = {'[7]': (N, '7'), '["s"]': (S, '"s"'), '[[5]]': (L(N), '[5]'), '[{a: 1, b: "q"}]': (C(a=N, b=S), '{a: 1, b: "q"}'), '[{a: 3}]': (C(a=N), '{a: 3}')}
